@@ -550,11 +550,13 @@ end Mesh
 section MeshF64
 variable [Div K] [Transc K]
 
-/-- quadrature and interpolation on a mesh with an empty direction: `n - 1` underflows -/
+/-- quadrature and interpolation on a mesh with an empty direction: `n - 1` underflows (for the
+    2-D rule: an empty x direction, or an empty y direction once the x loop runs at all) -/
 theorem rejects_mesh_empty (m1 : Mesh1 K K) (m2 : Mesh2 K K) (x : K) (var : Nat) (g : K → K) :
     (m1.nodes.size = 0 →
       Mesh1.interpolate m1 x = .error .arith ∧ Mesh1.trapezium m1 var = .error .arith) ∧
-    (m2.nx = 0 → Mesh2.trapWith g m2 var = .error .arith ∧ Mesh2.trapezium m2 var = .error .arith ∧
+    ((m2.nx = 0 ∨ (2 ≤ m2.nx ∧ 2 ≤ m2.xnodes.size ∧ m2.ny = 0)) →
+      Mesh2.trapWith g m2 var = .error .arith ∧ Mesh2.trapezium m2 var = .error .arith ∧
       Mesh2.squareTrapezium m2 var = .error .arith) := by
   constructor
   · intro h
@@ -562,9 +564,250 @@ theorem rejects_mesh_empty (m1 : Mesh1 K K) (m2 : Mesh2 K K) (x : K) (var : Nat)
       by simp [Mesh1.trapezium, usub, h, bind, Except.bind]⟩
   · intro h
     have key : ∀ g : K → K, Mesh2.trapWith g m2 var = .error .arith := by
-      intro g; simp [Mesh2.trapWith, usub, h, bind, Except.bind]
+      intro g
+      unfold Mesh2.trapWith
+      rcases h with h | ⟨h1, h2, h3⟩
+      · simp [usub, h, bind, Except.bind]
+      · rw [C19.usub_one_ok (by omega)]
+        show Mat.forM' 0 (m2.nx - 1) (0 : K) _ = _
+        apply Mat.forM'_first_error 0 (m2.nx - 1) _ _ _ (by omega)
+        simp only [Mat.aget_ok (show 0 < m2.xnodes.size by omega),
+          Mat.aget_ok (show 0 + 1 < m2.xnodes.size by omega), h3, C19.usub_one_err, bind,
+          Except.bind]
     exact ⟨key g, key _, key _⟩
 
 end MeshF64
+
+/-! ## (b) polynomial -/
+
+/-- `n ≤ len` derivatives succeed and shorten the coefficient list by `n` -/
+theorem derivativeN_size (p : Array K) :
+    ∀ n, n ≤ p.size → ∃ d, Poly.derivativeN p n = .ok d ∧ d.size = p.size - n
+  | 0, _ => ⟨p, rfl, by simp⟩
+  | n + 1, h => by
+    obtain ⟨d, h1, h2⟩ := derivativeN_size p n (by omega)
+    have hd : ¬ d.size = 0 := by omega
+    refine ⟨Array.ofFn (n := d.size - 1) (fun i => Poly.addRep (d[i.val + 1]?.getD 0) (i.val + 1)),
+      ?_, ?_⟩
+    · simp [Poly.derivativeN, h1, bind, Except.bind, Poly.derivative, hd]
+    · rw [Array.size_ofFn]; omega
+
+/-- more derivatives than coefficients: `degree().unwrap()` on the empty polynomial panics -/
+theorem derivativeN_rejects (p : Array K) :
+    ∀ n, p.size < n → Poly.derivativeN p n = .error .unwrap
+  | 0, h => absurd h (Nat.not_lt_zero _)
+  | n + 1, h => by
+    by_cases hn : p.size < n
+    · simp [Poly.derivativeN, derivativeN_rejects p n hn, bind, Except.bind]
+    · obtain ⟨d, h1, h2⟩ := derivativeN_size p n (by omega)
+      have hd : d.size = 0 := by omega
+      simp [Poly.derivativeN, h1, bind, Except.bind, Poly.derivative, hd]
+
+theorem rejects_poly_more (p : Array K) (x : K) (n : Nat) :
+    (p.size = 0 → Poly.eval p x = .error .unwrap ∧ Poly.derivative p = .error .unwrap ∧
+      Poly.trim p = .error .arith) ∧
+    (p.size < n → Poly.derivativeN p n = .error .unwrap) ∧
+    (p.size ≤ n → Poly.derivativeAt p x n = .error .unwrap) := by
+  refine ⟨fun h => ?_, derivativeN_rejects p n, fun h => ?_⟩
+  · have hp : p = #[] := Array.eq_empty_of_size_eq_zero h
+    subst hp
+    exact ⟨by simp [Poly.eval], by simp [Poly.derivative], by simp [Poly.trim]⟩
+  · unfold Poly.derivativeAt
+    by_cases hn : p.size < n
+    · simp [derivativeN_rejects p n hn, bind, Except.bind]
+    · obtain ⟨d, h1, h2⟩ := derivativeN_size p n (by omega)
+      have hd : d = #[] := Array.eq_empty_of_size_eq_zero (by omega)
+      subst hd
+      simp [h1, bind, Except.bind, Poly.eval]
+
+/-- `polydiv` by the empty or the all-zero polynomial: the library returns `Err(&str)` (model:
+    `.ok none`) — refused WITHOUT a panic, and no quotient/remainder pair is produced -/
+theorem polydiv_refuses (u v : Array K) (h : v.size = 0 ∨ Poly.isZero v = true) :
+    Poly.polydiv u v = .ok none := by
+  rcases h with h | h
+  · simp [Poly.polydiv, h]
+  · exact C12.polydiv_rejects_zero u v h
+
+/-! ## (b) threaded dot product, root finder, iterative solvers -/
+
+/-- zero workers: `len / w` divides by zero -/
+theorem rejects_dot_workers (a b : Array K) (h : a.size = b.size) :
+    Dot.dotThreaded 0 a b = .error .arith := by
+  simp [Dot.dotThreaded, h]
+
+section RootsKrylov
+variable [Div K] [Transc K]
+
+/-- `poly_solve` / `roots` need at least two coefficients: none underflows `len - 1` (`arith`),
+    a constant polynomial is refused explicitly (`range`) -/
+theorem rejects_polySolve [OfScientific K] (c : Array (Cx K)) (r : Array K) (refine : Bool) :
+    (c.size = 0 → Roots.polySolve c refine = .error .arith) ∧
+    (c.size = 1 → Roots.polySolve c refine = .error .range) ∧
+    (r.size = 0 → Roots.rootsReal r refine = .error .arith) ∧
+    (r.size = 1 → Roots.rootsReal r refine = .error .range) := by
+  have k0 : ∀ c : Array (Cx K), c.size = 0 → Roots.polySolve c refine = .error .arith := by
+    intro c h; simp [Roots.polySolve, usub, h, bind, Except.bind]
+  have k1 : ∀ c : Array (Cx K), c.size = 1 → Roots.polySolve c refine = .error .range := by
+    intro c h; simp [Roots.polySolve, usub, h, bind, Except.bind]
+  exact ⟨k0 c, k1 c, fun h => k0 _ (by simpa using h), fun h => k1 _ (by simpa using h)⟩
+
+/-- `solve_bicg` with an unknown error measure `itol ∉ {1, 2}` (sizes consistent, storage
+    readable): rejected with class `range` -/
+theorem rejects_krylov_itol (s : Sp K) (itol : Nat) (b x0 : Array K) (maxIter : Nat) (tol : K)
+    (norm2 : Array K → K) (h1 : s.rows = b.size) (h2 : s.rows = s.cols) (h3 : b.size = x0.size)
+    (hm : C08.Multipliable s x0) (hi : itol ≠ 1 ∧ itol ≠ 2) :
+    Sp.solveIter s (.bicg itol) b x0 maxIter tol norm2 = .error .range :=
+  C08.solveIter_rejects_itol s itol b x0 maxIter tol norm2 h1 h2 h3 hm hi
+
+end RootsKrylov
+
+/-! ## the hypotheses with a storage invariant are satisfiable -/
+
+example : Band.get (Band.new 2 1 1 (0 : Rat)) 2 2 = .error .range ∧
+    Band.set (Band.new 2 1 1 (0 : Rat)) 2 2 5 = .error .range :=
+  rejects_banded_rows _ (by simp [Band.new, Mat.new]) 2 2 5 (by simp [Band.new])
+
+example : Band.det (Band.new 1 2 0 (0 : Rat)) = .error .range :=
+  (rejects_banded_wide _ (Band.WFb.mk' (Mat.Is.of_new 1 (2 + 0 + 1) (0 : Rat))) (by simp [Band.new])
+    #[0] (by simp [Band.new])).2.1
+
+example : Mesh2.setVar (Mesh2.new #[(0 : Rat), 1] #[(0 : Rat), 1] 3 : Mesh2 Rat Rat) 0 0 3 7
+    = .error .range :=
+  (rejects_mesh2_setVar_apply _ (C19.new_wf2 _ _ _) (C19.new_sized2 _ _ _) 0 0 3 7
+    (fun _ _ => 0)).1 (Or.inr (by simp [Mesh2.new]))
+
+example : Mesh1.setVar (Mesh1.new #[(0 : Rat), 1] 3 : Mesh1 Rat Rat) 2 0 7 = .error .range :=
+  rejects_mesh1_setVar _ (C19.new_wf _ _) (C19.new_rowSized1 _ _) 2 0 7 (Or.inl (by simp [Mesh1.new]))
+
+example : Sp.solveIter (⟨1, 1, 1, #[(1 : Float)], #[0], #[0, 1]⟩ : Sp Float) (.bicg 3) #[1] #[0] 10 0
+    (fun _ => 0) = .error .range :=
+  rejects_krylov_itol _ 3 _ _ 10 0 _ rfl rfl rfl ⟨_, rfl⟩ (by decide)
+
+/-!
+## Coverage table: every `.error`-producing guard of the model and the theorem that covers it
+
+`C20.x` = theorem `Ohsl.Props.C20.x` (file: C20.lean, C20K.lean, or this file = "B");
+`Cnn.x` = theorem `Ohsl.Props.Cnn.x`.  "internal" = helper that is not an entry point of the
+library (reached only through a listed entry point).  "no guard" = the function states no check of
+its own; its raw slice accesses are in range on well-formed storage (proved by the named spec).
+`divM` = the only failure is the scalar's division (class `arith`, exact types only) — not a
+size / index guard, listed for completeness.
+
+Model/Vec.lean
+| guard                                                         | class          | theorem |
+| `aget` / `aset` index ≥ len                                   | range          | C20.rejects_primitives (B) |
+| `usub a b`, a < b                                             | arith          | C20.rejects_primitives (B) |
+| `add` `sub` `dot`: sizes differ                               | size           | C20.rejects_vector |
+| `addAssign` `subAssign`: sizes differ                         | size           | C20.rejects_vector_more (B) |
+| `sumSlice` `productSlice`: s > e, s ≥ len, e ≥ len            | range          | C20.rejects_vector |
+| `sum` `product` `find` on the empty vector (`len - 1`)        | arith          | C20.rejects_vector_more (B) |
+| `insert` pos > len                                            | range          | C20.rejects_vector |
+| `pop` on the empty vector                                     | unwrap         | C20.rejects_vector (`#[]`), C20.rejects_vector_more (B, size = 0) |
+| `swap` i ≥ len or j ≥ len                                     | range          | C20.rejects_vector_more (B); shape: C20.vec_swap_keeps_shape (B) |
+| `normInfBy` `normInf` `normInfC` on the empty vector          | range          | C20.rejects_normInf (B) |
+| `sdiv` `divS` `linspace` `powspace` `normP`                   | divM           | C15.linspace_one_rejects, C15.powspace_one_rejects, C15.normP_zero_rejects |
+
+Model/Mat.lean
+| raw `get` / `set`: flat offset ≥ buffer length                | range          | C20.rejects_matrix_raw (B) |
+| `swapElem`: either flat offset ≥ buffer length                | range          | C20.rejects_matrix_raw (B) |
+| `getRow` row ≥ rows, `getCol` col ≥ cols                      | range          | C20.rejects_matrix |
+| `setRow` len ≠ cols / row ≥ rows                              | size / range   | C20.rejects_matrix_more (∃), C20.rejects_matrix_classes (B, exact) |
+| `setCol` len ≠ rows / col ≥ cols                              | size / range   | C20.rejects_matrix (∃), C20.rejects_matrix_classes (B, exact) |
+| `deleteRow` row ≥ rows                                        | range          | C20.rejects_matrix_more |
+| `deleteRow` buffer shorter than (row+1)·cols                  | range          | C20.rejects_matrix_classes (B) |
+| `mulVec` len ≠ cols, `mul` a.cols ≠ b.rows                    | size           | C20.rejects_matrix |
+| `swapRows`, `fillRow` row ≥ rows; `fillCol` col ≥ cols        | range          | C20.rejects_matrix_more |
+| `add` `sub`: rows or cols differ                              | size           | C20.rejects_matrix_more |
+| `eye` `resize` `transpose(InPlace)` `fill*` `map2` `mapM1` `neg` `smul` `addS` `subS` `lsmul` norms | no guard | C03 / C03M / C03N specs |
+| `sdiv`, `normP`                                               | divM           | C03.sdiv_zero_rejects, C03.normP_zero_rejects |
+| shape after a successful write (`set` `swapElem` `swapRows` `setRow` `setCol` `fillRow` `fillCol`) | — | C20.mat_keeps_shape (B); histories: C20.history_keeps_wf |
+
+Model/Solve.lean
+| `solveBasic` `solveLU`: rows ≠ len(b) or rows ≠ cols           | size           | C20.rejects_solvers_full (B) |
+| `solveBasic` `solveLU`: order 0 (`rows - 1`)                   | arith          | C20.rejects_solvers_order0 (B) |
+| `luDecomp` `determinant` `inverse`: rows ≠ cols                | size           | C20.rejects_lu_det_inv (B) |
+| `backsolve` `gaussWithPivot` (`usub rows 1`)                   | arith          | internal; reached only by the order-0 case above |
+| `maxAbsInColumn` `partialPivot` `elimRow` `luPivot` `luElimRow` `luStep` `forwardSub` | no guard | internal (C01S / C02D specs) |
+| zero pivot in `backsolve` / `inverse`                          | divM           | C01.solveBasic_singular_rejects, C01.solveLU_singular_rejects, C02.inverse_singular_rejects |
+
+Model/Banded.lean
+| `fillBand` band ∉ [-m1, m2]                                    | range          | C20.rejects_banded |
+| `get` `set` outside the band                                   | range          | C20.rejects_banded |
+| `get` `set` row ≥ n (caught by the compact buffer)             | range          | C20.rejects_banded_rows (B) |
+| `solve` `mulVec` n ≠ len                                       | size           | C20.rejects_banded |
+| `add` `sub'` (n, m1, m2) differ                                | size           | C20.rejects_banded |
+| `decompose` `det` `solve` with n < m1 (`shiftRows` reads outside) | range       | C20.rejects_banded_wide (B) |
+| `shiftRows` `decElim` `decStep` (`usub`, raw accesses)         | —              | internal (Lemmas/BandSpec, C04B) |
+| `fill` `resize` `neg` `smul` `sdiv` `addS` `subS`              | no guard       | delegate to Mat (C04B / C04D) |
+| shape after `set` / `fillBand`                                 | —              | C20.band_keeps_shape (B) |
+
+Model/Tridiag.lean
+| `withVecs` empty main (`n - 1`) / wrong off-diagonal lengths   | arith / size   | C20.rejects_tridiagonal_more (B) |
+| `new 0`, `withElements _ _ _ 0`                                | arith          | C20.rejects_tridiagonal_more (B) |
+| `get` `set`: i ≥ n, j ≥ n, or off the three diagonals          | range          | C20.rejects_tridiagonal_more (B) (get also C20.rejects_tridiagonal) |
+| `det`: `main[0]` on an empty diagonal, `f[1]` when n = 0       | range          | C20.rejects_tridiagonal_more (B) |
+| `convert` n = 0                                                | range          | C20.rejects_tridiagonal_more (B) |
+| `solve` `mulVec` n ≠ len                                       | size           | C20.rejects_tridiagonal |
+| `solve` zero pivot                                             | zeroPivot      | C05.solve_error_class, C05.solve_error_class_structural |
+| `add` `sub'` a.n ≠ b.n                                         | size           | C20.rejects_tridiagonal_more (B) |
+| `sdiv`                                                         | divM           | C05.sdiv_guard |
+| shape after `set`                                              | —              | C20.tri_set_keeps_shape (B) |
+
+Model/Sparse.lean
+| `fromVecs` empty `col_start` (`len - 1`)                       | arith          | C20.rejects_sparse_more (B) |
+| `fromTriplets` a triplet with row ≥ rows or col ≥ cols         | range          | C20.rejects_sparse_more (B) (= C06.fromTriplets_rejects) |
+| `colIndex` nonzero ≠ 0 and `col_start` shorter than cols + 1   | range          | C20.rejects_sparse_more (B) |
+| `get` `insert`: row ≥ rows, col ≥ cols, col ≥ len(col_start)   | range          | C20.rejects_sparse_more (B) (first two also C20.rejects_sparse_mesh_poly) |
+| `multiply` cols ≠ len, `transposeMultiply` rows ≠ len          | size           | C20.rejects_sparse_mesh_poly |
+| `colStartFromIndex`                                            | —              | internal (C06.colStartFromIndex_counts) |
+| `scale` `transpose` `toTriplets` `toDense`                     | no guard       | C06 / C07 specs on well-formed storage |
+| shape after `insert`                                           | —              | C20.sparse_insert_keeps_shape (B) |
+
+Model/KrylovSp.lean
+| `solveIter` rows ≠ len(b), rows ≠ cols, len(b) ≠ len(x0)       | size           | C20.rejects_krylov_size, C20.rejects_krylov |
+| `solveIter` first product fails on inconsistent storage        | (as product)   | C08.solveIter_rejects_storage, C20.rejects_krylov |
+| `solveIter (.bicg itol)` itol ∉ {1, 2}                         | range          | C20.rejects_krylov_itol (B) |
+
+Model/Mesh.lean
+| `Mesh1.coord` node ≥ len(nodes), `Mesh1.index` node ≥ len(vars) | range         | C20.rejects_mesh1_more (B) |
+| `Mesh1.setNodesVars` node ≥ len(nodes) / len(v) ≠ nvars        | range / size   | C20.rejects_mesh (∃), C20.rejects_mesh1_more (B, exact) |
+| `Mesh1.getNodesVars` node ≥ len(nodes)                         | range          | C20.rejects_mesh |
+| `Mesh1.setVar` node ≥ len(nodes) or var ≥ nvars                | range          | C20.rejects_mesh1_setVar (B) (= C19.setVar_rejects1; needs the storage invariant) |
+| `Mesh1.interpolate` `Mesh1.trapezium` on an empty mesh         | arith          | C20.rejects_mesh_empty (B) |
+| `Mesh2.coord` i ≥ len(xnodes) or j ≥ len(ynodes)               | range          | C20.rejects_mesh2_more (B) |
+| `Mesh2.guard` (i > nx-1, j > ny-1, underflow on empty)         | range / arith  | C19.guard_err |
+| `Mesh2.setNodesVars` `getNodesVars` outside the grid / wrong length | range / arith / size | C20.rejects_mesh2 (∃), C20.rejects_mesh2_classes (B, exact) |
+| `Mesh2.index` flat offset ≥ len(vars)                          | range          | C20.rejects_mesh2_more (B) |
+| `Mesh2.setVar` offset outside the storage or var ≥ nvars       | range          | C20.rejects_mesh2_setVar_apply (B) (= C19.setVar_rejects2; storage invariant) |
+| `Mesh2.apply` var ≥ nvars (grid non-empty)                     | range          | C20.rejects_mesh2_setVar_apply (B) (= C19.apply_rejects) |
+| `Mesh2.crossSectionX` i ≥ nx, `crossSectionY` j ≥ ny           | range / arith  | C20.rejects_mesh2 (X, ∃), C20.rejects_mesh2_more (B, both, exact) |
+| `Mesh2.varAsMatrix` var ≥ nvars                                | range          | C20.rejects_mesh2 |
+| `Mesh2.trapWith` `trapezium` `squareTrapezium`, empty direction | arith         | C20.rejects_mesh_empty (B) |
+| `Mesh2.assign`                                                 | no guard       | C19.assign_abs |
+| shape after `setNodesVars` `setVar` (`assign` `apply`)         | —              | C20.mesh1_keeps_shape, C20.mesh2_keeps_shape (B) |
+
+Model/Poly.lean
+| `eval` `derivative` on the empty polynomial                    | unwrap         | C20.rejects_poly_more (B) |
+| `trim` on the empty polynomial (`len - 1`)                     | arith          | C20.rejects_poly_more (B) |
+| `derivativeN p n`, n > len; `derivativeAt p x n`, n ≥ len      | unwrap         | C20.rejects_poly_more (B), C20.derivativeN_rejects (B) |
+| `get` i ≥ len                                                  | range          | C20.rejects_sparse_mesh_poly |
+| `polydiv` by the empty / zero polynomial: `Err(&str)`, no panic | (`.ok none`)  | C20.polydiv_refuses (B) |
+| `divStep` (`usub`, `aget`, `aset`; `divM`)                    | —              | internal; inside `polydiv` only `divM` can fail (C12.divStep_size, C12D) |
+
+Model/Roots.lean
+| `polySolve` `rootsReal`: no coefficient / one coefficient      | arith / range  | C20.rejects_polySolve (B) (∃: C10.rejects_degree0) |
+
+Model/Dot.lean
+| `dotThreaded` sizes differ                                     | size           | C20.rejects_sparse_mesh_poly |
+| `dotThreaded` w = 0                                            | arith          | C20.rejects_dot_workers (B) |
+
+Model/Cx.lean, Model/Inst.lean (`div` `divR` `divAssign` `divAssignR`, `divM` on `Rat`): divM only —
+C13.cx_div_rejects, C13.toC_div_error, C13.toC_divR_error.
+Model/Newton.lean (`jacobian`: `aget` / `setCol` when the map changes its output size):
+C18.jacobian_rejects_size_change.
+Model/Krylov.lean, Model/CxFun.lean, Model/Basic.lean: no `.error`.
+Model/Fmt.lean (`output2`, `outputVar2`: raw reads, formatting of the driver) and Model/Wire.lean
+(`throw` of the token parser of the driver): not library entry points, no clause.
+-/
 
 end Ohsl.Props.C20
